@@ -9,6 +9,7 @@ from fractions import Fraction as F
 
 from harness import fr
 from harness.props import netlist_common as nc
+from harness.props import netlist_boundary as nb
 from harness.props.netlist_common import val, close
 
 HEADER = nc.HEADER
@@ -23,7 +24,21 @@ def oracle(case, obs):
         return None          # not a netlist the reader accepts
     if obs["reload"]["verdict"] != "ok":
         return f"reload-rejected: the written netlist is not accepted back: {obs['reload'].get('msg', '')[:200]}"
-    a, b = obs["n1"], obs["n2"]
+    # the design as loaded, and the same object after it has been written (writing must not have made another design
+    # of it: the reloaded design is compared with both)
+    for a in (obs["n1"], obs.get("n1_after") or obs["n1"]):
+        why = same_design(a, obs["n2"])
+        if why:
+            return why
+    for t in (obs["text1"], obs.get("text1_again") or obs["text1"]):
+        if obs["text2"] != t:
+            import difflib
+            d = [l for l in difflib.unified_diff(t.splitlines(), obs["text2"].splitlines(), lineterm="", n=0)][2:8]
+            return "rewrite-differs: writing the reloaded design gives another document: " + " | ".join(d)
+    return None
+
+
+def same_design(a, b):
     if [m["name"] for m in a["modules"]] != [m["name"] for m in b["modules"]]:
         return "module-order: module names or their order changed"
     for m, r in zip(a["modules"], b["modules"]):
@@ -49,10 +64,6 @@ def oracle(case, obs):
     eb = [(e["members"], val(e["weight"])) for e in b["edges"]]
     if ea != eb:
         return f"nets-changed: {ea} -> {eb}"
-    if obs["text2"] != obs["text1"]:
-        import difflib
-        d = [l for l in difflib.unified_diff(obs["text1"].splitlines(), obs["text2"].splitlines(), lineterm="", n=0)][2:8]
-        return "rewrite-differs: writing the reloaded design gives another document: " + " | ".join(d)
     return None
 
 
@@ -64,17 +75,46 @@ def failure_key(case, why):
 
 
 def gen_case(rng):
+    from harness.props import c05
     r = rng.random()
-    if r < 0.68:
+    if r < 0.36:
         return {"stream": "exact", "exact": True, "doc": nc.gen_doc(rng)}
-    if r < 0.92:
+    if r < 0.62:
+        stream, doc = c05.valid_boundary(rng)
+        return c05.with_form(rng, {"stream": stream, "exact": True, "doc": doc})
+    if r < 0.82:
         return {"stream": "decimal", "exact": False, "doc": nc.gen_doc(rng, decimal=True)}
+    if r < 0.90:
+        # deviations outside the list of defects: those the reader accepts are netlists like any other
+        vs = list(nb.near_misses(rng, nc.gen_doc(rng, quirks=False)))
+        tag, d = rng.choice(vs)
+        return c05.with_form(rng, {"stream": "near-miss", "tag": tag, "exact": True, "doc": d})
     for _ in range(50):
         cls = rng.choice(nc.CLASSES)
-        d = nc.inject(rng, nc.gen_doc(rng, quirks=False), cls)
+        base = nc.gen_doc(rng, quirks=False)
+        d = nc.inject(rng, base, cls)
         if d is not None:
             return {"stream": "malformed", "exact": True, "doc": d}
     return {"stream": "exact", "exact": True, "doc": nc.gen_doc(rng)}
+
+
+def catalogue(rng, quick):
+    """every near miss (the accepted ones are unusual netlists: bools for numbers, -0.0, an empty area mapping on a hard
+    module, repeated net members ...) on a document with all module kinds; documents of every size around the thresholds"""
+    from harness.props import c05
+    cases = []
+    for b in range(1 if quick else 6):
+        doc = nb.rich_doc(rng)
+        for tag, d in nb.near_misses(rng, doc):
+            cases.append(c05.with_form(rng, {"stream": "near-miss", "tag": tag, "exact": True, "doc": d}, p_history=0.05))
+        for f in (nb.family_names, lambda r, x: nb.reorder(r, x)[0], lambda r, x: nb.coincide(r, x)[0],
+                  lambda r, x: nb.decorate(r, x)[0]):
+            for _ in range(3):
+                cases.append(c05.with_form(rng, {"stream": "exact-boundary", "exact": True, "doc": f(rng, doc)}, p_history=0.3))
+    for cfg in (nb.SIZES_QUICK if quick else nb.SIZES_THOROUGH):
+        cases.append(c05.with_form(rng, {"stream": "size", "tag": " ".join(f"{k}={v}" for k, v in cfg.items()),
+                                         "exact": True, "doc": nb.sized_doc(rng, **cfg)}, p_history=0.0))
+    return cases
 
 
 def nontrivial(case):
@@ -93,21 +133,42 @@ def kinds(case):
 
 
 def run(ctx, out, replay=None):
-    n = 1200 if ctx.quick() else 15000
+    n = 1100 if ctx.quick() else 8000
     out.rule = ("random netlist documents as for C05 (all module kinds and attribute combinations, nets of arity 2-6, "
-                "weights absent / 1 / other), 68% dyadic (model and oracle), 24% decimal multiples of 0.1 (oracle only), "
-                "8% with one injected defect (verdict correspondence); each is loaded, written, reloaded and written again; "
-                "non-trivial = at least two modules and a net or two rectangles; distinct by hash")
+                "weights absent / 1 / other): 36% dyadic as drawn, 26% rewritten into an equally valid document on a boundary "
+                "(names null / true / yes / on / off / _ / area / Modules, names that are prefixes of each other, weights 1 / 1.0 "
+                "/ True / 1 + 2^-52 / 2^60 / 2^-50, ints for floats and floats for ints, per-region areas with such names, "
+                "5-entry rectangles, modules / nets / rectangles / attributes reversed or sorted, rectangles of equal area, centre "
+                "= centroid), 20% decimal multiples of 0.1 (oracle only), 8% near misses outside C05's list of defects (the "
+                "accepted ones - bools for numbers, -0.0, `area: {}` on a hard module, repeated members - are netlists like any "
+                "other), 10% with one injected defect (verdict correspondence); plus the catalogue of all near misses on a "
+                "document with every module kind and documents of 9..257 (1001) modules, 9..65 (257) members, 33..101 (1001) "
+                "nets, 9..65 (161) rectangles, names of 32..4097 (8193) characters, 9..33 (101) regions; half of the new "
+                "streams given as the tree, as hand-spelled YAML text (1e3, +2, .5, 0x1F, quoted names), as a file name or as an open text stream, "
+                "15% after other loads / writes in the same process, 8% with the source loaded twice; each is loaded, "
+                "written (twice), reloaded and written again; non-trivial = at least two modules and a net or two "
+                "rectangles; distinct by hash")
     cases = []
     if replay and "case" in replay:
         cases.append(fr.unjson(replay["case"]))
     cases += fr.load_corpus("C04")
+    cases += catalogue(ctx.rng, ctx.quick())
     while len(cases) < n:
         cases.append(gen_case(ctx.rng))
     for c in cases:
         for k in kinds(c):
             out.count("kind/" + k)
-    fr.run_cases(ctx, out, cases, nc.run_impl, nc.to_coq, oracle, failure_key, HEADER,
+    forms, seen_pairs = {}, []
+
+    def run_impl(case):
+        obs = nc.run_impl(case)
+        forms[obs.get("via", "?")] = forms.get(obs.get("via", "?"), 0) + 1
+        seen_pairs.append((case, obs))
+        return obs
+    fr.run_cases(ctx, out, cases, run_impl, nc.to_coq, oracle, failure_key, HEADER,
                  dist_key=lambda c: c.get("stream", "?"), nontrivial=nontrivial, shard=100, shrink=nc.shrink)
+    out.extra["input_forms"] = forms
+    nc.reason_stat(ctx, out, seen_pairs[:len(cases)])
+    out.extra["near_miss_tags"] = sorted({c["tag"] for c in cases if c.get("stream") == "near-miss"})
     for f in out.failures:      # a shrunk input is filed under the failure it shows
         f["key"] = failure_key(None, f.get("why"))
